@@ -36,6 +36,9 @@ pub struct Spec {
     pub syms: Option<Vec<Sym>>,
     /// keep p_offset congruent to p_vaddr modulo the page size (as linkers do)
     pub congruent: bool,
+    /// the fields a loader has no business with: p_paddr (unspecified for user-space files), p_align, e_type (EXEC or DYN),
+    /// EI_OSABI (System V or Linux). 0 = the usual values
+    pub incidental: u8,
 }
 
 /// offsets of fields, for the mutator
@@ -124,8 +127,9 @@ pub fn write_elf(spec: &mut Spec) -> (Vec<u8>, Layout) {
     }
     let mut f: Vec<u8> = vec![];
     // e_ident
-    f.extend_from_slice(&[0x7f, b'E', b'L', b'F', 2, 1, 1, 0, 0, 0, 0, 0, 0, 0, 0, 0]);
-    put16(&mut f, 2); // ET_EXEC
+    let inc = spec.incidental;
+    f.extend_from_slice(&[0x7f, b'E', b'L', b'F', 2, 1, 1, if inc & 8 != 0 { 3 } else { 0 }, 0, 0, 0, 0, 0, 0, 0, 0]);
+    put16(&mut f, if inc & 4 != 0 { 3 } else { 2 }); // ET_DYN / ET_EXEC
     put16(&mut f, 62); // EM_X86_64
     put32(&mut f, 1);
     put64(&mut f, spec.entry);
@@ -143,10 +147,15 @@ pub fn write_elf(spec: &mut Spec) -> (Vec<u8>, Layout) {
         put32(&mut f, s.flags);
         put64(&mut f, s.offset);
         put64(&mut f, s.vaddr);
-        put64(&mut f, s.vaddr);
+        put64(&mut f, match inc & 3 {
+            1 => 0,
+            2 => s.vaddr ^ 0x4010_0000,
+            3 => spec.segs.iter().rev().find(|o| o.ptype == PT_LOAD && o.vaddr != s.vaddr).map(|o| o.vaddr).unwrap_or(0x1000),
+            _ => s.vaddr,
+        });
         put64(&mut f, s.filesz);
         put64(&mut f, s.memsz);
-        put64(&mut f, s.align);
+        put64(&mut f, if inc & 16 != 0 { *[0u64, 1, 0x20_0000, 0x10].get((s.vaddr >> 12) as usize % 4).unwrap() } else { s.align });
     }
     for (off, b) in &blobs {
         if f.len() < *off {
@@ -327,7 +336,7 @@ pub fn well_formed(rng: &mut Rng) -> Spec {
             _ => s.vaddr + rng.below(s.memsz),
         }
     };
-    Spec { entry, segs: all, syms, congruent: rng.chance(1, 2) }
+    Spec { entry, segs: all, syms, congruent: rng.chance(1, 2), incidental: if rng.chance(1, 2) { rng.below(32) as u8 } else { 0 } }
 }
 
 /// fix up the `fixed_offset` headers that point into the first load's file bytes (after offsets are known)
